@@ -257,6 +257,13 @@ func runC19(t *testing.T, tape *sim.Tape, tier string) *Outcome {
 			hs.Fault = "stall"
 			hs.dial()
 			cl.settle(4000)
+			// ... and one whose goroutine is blocked in a reply write (the client stopped reading behind a small window)
+			blocked := cl.addClient("blockedwrite", plainAddr, [][]byte{resp.Cmd("SET", "blk", bigVal), resp.Cmd("GET", "blk"), resp.Cmd("GET", "blk"), resp.Cmd("GET", "blk")})
+			blocked.NoRead = true
+			blocked.S2CWindow = 64 + tape.Draw(600, "window")
+			blocked.End = endPlan{Mode: -1, AfterTx: -1}
+			cl.settle(4000)
+			o.stat("stop_with_connection_blocked_in_write", 1)
 			// ... and one whose command is executing (inside the handler, command mutex held) while Stop runs
 			inexec := cl.addClient("inexec", plainAddr, [][]byte{resp.Cmd("GET", "inexec")})
 			inexec.End = endPlan{Mode: -1, AfterTx: -1}
@@ -299,6 +306,9 @@ func runC19(t *testing.T, tape *sim.Tape, tier string) *Outcome {
 				}
 				if inexec.P != nil {
 					modes[inexec.P.ID] = "executing a command"
+				}
+				if blocked.P != nil {
+					modes[blocked.P.ID] = "blocked in a reply write"
 				}
 				var desc []string
 				for _, id := range open {
@@ -359,7 +369,7 @@ func init() {
 	register(&Check{
 		ID: "C19", Bubble: true, Run: runC19,
 		Runs:   map[string]int{"quick": 800, "thorough": 2400},
-		Rule:   "a case (evaluation) is one connection lifetime inside a churn run: plain and TLS ports, optional common-name rule, reference store; each run opens 30 (thorough 1500) connections in batches with up to 1..32 in flight, each ended by a drawn mode {FIN at a request boundary or inside a request (half-close/close), RST at boundary/inside, QUIT, malformed frame, write failure after the client stopped reading, TLS garbage / abort after ClientHello / untrusted certificate / certificate rejected by the rule, TLS session then close or reset, idle then close}, interleaved by the seeded scheduler; some stay idle across batches; a third of the runs end with Stop (half of them after a Start that fails because the server is running) while connections are idle, mid-request, mid-handshake and inside a handler call; accounting (socket closed, goroutine gone, registry entry gone; idle baseline at the end) at every drain point; distinct = distinct event-log hashes of runs",
+		Rule:   "a case (evaluation) is one connection lifetime inside a churn run: plain and TLS ports, optional common-name rule, reference store; each run opens 30 (thorough 1500) connections in batches with up to 1..32 in flight, each ended by a drawn mode {FIN at a request boundary or inside a request (half-close/close), RST at boundary/inside, QUIT, malformed frame, write failure after the client stopped reading, TLS garbage / abort after ClientHello / untrusted certificate / certificate rejected by the rule, TLS session then close or reset, idle then close}, interleaved by the seeded scheduler; some stay idle across batches; a third of the runs end with Stop (half of them after a Start that fails because the server is running) while connections are idle, mid-request, mid-handshake, inside a handler call and blocked in a reply write; accounting (socket closed, goroutine gone, registry entry gone; idle baseline at the end) at every drain point; distinct = distinct event-log hashes of runs",
 		Real:   []string{"redis.Server accept loops, TLS handshake goroutine, connection loop, ConnManager, Stop", "crypto/tls"},
 		Stub:   []string{"network: simulated (descriptor count = server-side ends not yet closed; real descriptors do not exist in the simulation)", "handler: reference store"},
 		Assume: []string{"the idle baseline is the set of parked server tasks right after Start (one accept loop per enabled port)"},
